@@ -538,3 +538,44 @@ def fen_strings(rng, legal_fens, n_valid, n_bad):
             f[fi] = f[fi][:k] + rng.choice(uni) + f[fi][k + 1:]
         bad.append(" ".join(f))
     return valid, bad
+
+
+def promotion_then_castle():
+    """a pawn promotes (every file, every piece, by push) while the other side still has castling rights:
+    the reply list (through the engine's own generator) must contain castling without a promotion letter,
+    whenever the rules allow it.  Returns (fen, [promotion move text])."""
+    out = []
+    files = "abcdefgh"
+    for mover_white in (True, False):
+        for wing in ("K", "Q", "KQ"):
+            for f in range(8):
+                # the castling side: king on e, rooks per wing; the promoting pawn on the seventh (second) rank
+                back = {4: "k" if mover_white else "K"}
+                if "K" in wing:
+                    back[7] = "r" if mover_white else "R"
+                if "Q" in wing:
+                    back[0] = "r" if mover_white else "R"
+                if f in back:
+                    continue
+                def row(d):
+                    s_, e = "", 0
+                    for i in range(8):
+                        if i in d:
+                            if e:
+                                s_ += str(e); e = 0
+                            s_ += d[i]
+                        else:
+                            e += 1
+                    return s_ + (str(e) if e else "")
+                pawn_row = row({f: "P" if mover_white else "p"})
+                own_king_row = row({4: "K" if mover_white else "k"}) if f != 4 else row({3: "K" if mover_white else "k"})
+                rights = "".join(c for c in ("kq" if mover_white else "KQ") if c.upper() in wing)
+                if mover_white:
+                    fen = "%s/%s/8/8/8/8/8/%s w %s - 0 1" % (row(back), pawn_row, own_king_row, rights)
+                    base = "%s7%s8" % (files[f], files[f])
+                else:
+                    fen = "%s/8/8/8/8/8/%s/%s b %s - 0 1" % (own_king_row, pawn_row, row(back), rights)
+                    base = "%s2%s1" % (files[f], files[f])
+                for k in "qrbn":
+                    out.append((fen, [base + k]))
+    return out
